@@ -34,6 +34,7 @@ var verifDir = func() string {
 	}
 	return "/verif"
 }()
+
 const goBin = "/opt/veriftools/go1.26.8/bin/go"
 
 func buildEnv() []string {
@@ -359,6 +360,8 @@ type agg struct {
 	mu          sync.Mutex
 	evals       int
 	digests     map[string]bool
+	scheds      map[string]bool // distinct scheduling-order digests
+	schedSteps  uint64
 	coarse      map[string]bool
 	simMs       int64
 	ops         int
@@ -382,6 +385,10 @@ func (a *agg) add(r *simplan.Result) {
 	}
 	for k, v := range r.Probes {
 		a.probes[k] += v
+	}
+	if r.SchedDigest != "" {
+		a.scheds[r.SchedDigest] = true
+		a.schedSteps += r.SchedSteps
 	}
 	if r.Nontrivial {
 		a.digests[r.TraceDigest] = true
@@ -424,21 +431,21 @@ func (c *check) baseSeed() uint64 {
 }
 
 type partOutcome struct {
-	exit      int
-	trouble   string
-	detRe     int
-	detSame   int
-	nviol     int
-	known     []knownFinding
-	buildS    float64
-	exploreS  float64
+	exit     int
+	trouble  string
+	detRe    int
+	detSame  int
+	nviol    int
+	known    []knownFinding
+	buildS   float64
+	exploreS float64
 }
 
 func (c *check) run() int {
 	t0 := time.Now()
 	defer c.cleanup()
 	c.mktmp()
-	a := &agg{digests: map[string]bool{}, coarse: map[string]bool{}, faults: map[string]int{}, probes: map[string]int{}, viol: map[string][]*simplan.Result{}}
+	a := &agg{digests: map[string]bool{}, scheds: map[string]bool{}, coarse: map[string]bool{}, faults: map[string]int{}, probes: map[string]int{}, viol: map[string][]*simplan.Result{}}
 	parts := c.spec.Parts
 	if len(parts) == 0 {
 		parts = []part{{Harness: c.spec.Harness, Share: 1}}
@@ -1170,26 +1177,29 @@ func (c *check) writeEvidence(a *agg, wall, exploreS, buildS float64, detRe, det
 		"violations":  violations,
 		"assumptions": c.spec.Assumptions,
 		"coverage": map[string]interface{}{
-			"evaluations":         a.evals,
-			"distinct_nontrivial": len(a.digests),
-			"rule":                c.spec.Rule,
-			"samples":             samples,
-			"exhaustive":          false,
-			"distinct_shapes":     len(a.coarse),
-			"client_operations":   a.ops,
-			"sim_time_s":          round1(float64(a.simMs) / 1000),
-			"plans_per_hour":      int(pph),
-			"plan_seed_first":     base,
-			"plan_seed_last":      base + uint64(max(a.evals-1, 0)),
-			"fault_counts":        a.faults,
-			"probe_counts":        a.probes,
-			"determinism":         map[string]int{"replayed_in_fresh_process": detRe, "identical_trace": detSame},
-			"components":          map[string]interface{}{"real": c.spec.Real, "model": c.spec.Model},
-			"known_findings_hit":  kf,
-			"build_s":             round1(buildS),
-			"harness":             c.spec.Harness,
-			"race_build":          c.spec.Race,
-			"technique":           "deterministic simulation with fault injection: seeded plans (ops + faults + knobs) executed in a synctest bubble on a patched deterministic runtime; oracles = reference model + invariants at quiescent instants and over the recorded history",
+			"evaluations":          a.evals,
+			"distinct_nontrivial":  len(a.digests),
+			"rule":                 c.spec.Rule,
+			"samples":              samples,
+			"exhaustive":           false,
+			"distinct_shapes":      len(a.coarse),
+			"distinct_schedules":   len(a.scheds),
+			"scheduling_decisions": a.schedSteps,
+			"interleaving_measure": "distinct_schedules = number of distinct values of a rolling hash over the goroutine ids in the order the (single-P) Go scheduler ran them during a plan; distinct_nontrivial = distinct canonical traces of simulator-visible events; distinct_shapes = distinct (who, kind) event sequences",
+			"client_operations":    a.ops,
+			"sim_time_s":           round1(float64(a.simMs) / 1000),
+			"plans_per_hour":       int(pph),
+			"plan_seed_first":      base,
+			"plan_seed_last":       base + uint64(max(a.evals-1, 0)),
+			"fault_counts":         a.faults,
+			"probe_counts":         a.probes,
+			"determinism":          map[string]int{"replayed_in_fresh_process": detRe, "identical_trace": detSame},
+			"components":           map[string]interface{}{"real": c.spec.Real, "model": c.spec.Model},
+			"known_findings_hit":   kf,
+			"build_s":              round1(buildS),
+			"harness":              c.spec.Harness,
+			"race_build":           c.spec.Race,
+			"technique":            "deterministic simulation with fault injection: seeded plans (ops + faults + knobs) executed in a synctest bubble on a patched deterministic runtime; oracles = reference model + invariants at quiescent instants and over the recorded history",
 		},
 	}
 	os.MkdirAll(filepath.Join(verifDir, "evidence"), 0o755)
